@@ -44,8 +44,71 @@ fn enforced(opcode: u8) -> Option<(Vec<usize>, Vec<usize>)> {
     })
 }
 
+/// Cells of a row the stack constraints read, in the order of the `air` request:
+/// clk, fmp, helper0..5, s0..s15, b0, b1, h0.
+fn row_cells(row: &[Felt]) -> Vec<u64> {
+    let mut v = vec![row[CLK_COL_IDX].as_int(), row[FMP_COL_IDX].as_int()];
+    v.extend((0..6).map(|i| row[HELPERS + i].as_int()));
+    v.extend((0..16).map(|i| row[S + i].as_int()));
+    v.extend([row[B0].as_int(), row[B1].as_int(), row[B1 + 1].as_int()]);
+    v
+}
+
+fn set_opcode(row: &mut [Felt], opc: u8) {
+    for b in 0..7 {
+        row[DECODER_TRACE_OFFSET + 1 + b] = Felt::new(((opc >> b) & 1) as u64);
+    }
+    let (b6, b5, b4) = ((opc >> 6) & 1, (opc >> 5) & 1, (opc >> 4) & 1);
+    // degree-reduction columns: e0 = b6 (1 - b5) b4, e1 = b6 b5
+    row[DECODER_TRACE_OFFSET + 22] = Felt::new((b6 * (1 - b5) * b4) as u64);
+    row[DECODER_TRACE_OFFSET + 23] = Felt::new((b6 * b5) as u64);
+}
+
+/// Schwartz-Zippel correspondence of the Lean AIR model with `stack::enforce_constraints`:
+/// every opcode, random field elements in every other cell (constraints have degree <= 9 there).
+fn air_correspondence(em: &mut Emitter, rng: &mut Rng, per_op: usize, honest: &[(Vec<Felt>, Vec<Felt>)]) {
+    let emit = |em: &mut Emitter, cur: &[Felt], nxt: &[Felt], opc: u8| {
+        let frame = winter_air::EvaluationFrame::from_rows(cur.to_vec(), nxt.to_vec());
+        let mut out = vec![Felt::ZERO; air::stack::get_transition_constraint_count()];
+        air::stack::enforce_constraints(&frame, &mut out);
+        em.emit(
+            format!("air {} {} {}", opc, join_u64(row_cells(cur)), join_u64(row_cells(nxt))),
+            format!("cs {}", join_u64(out.iter().map(|f| f.as_int()))),
+        );
+    };
+    let ops: Vec<u8> = crate::export::all_ops().iter().map(|o| o.op_code()).collect();
+    for &opc in &ops {
+        for k in 0..per_op {
+            let mut cur: Vec<Felt> = (0..TRACE_WIDTH).map(|_| Felt::new(rng.next() % P)).collect();
+            let nxt: Vec<Felt> = (0..TRACE_WIDTH).map(|_| Felt::new(rng.next() % P)).collect();
+            set_opcode(&mut cur, opc);
+            if k % 3 == 1 {
+                // small / boundary values exercise the binary and depth-16 special cases
+                for i in 0..16 {
+                    cur[S + i] = Felt::new(rng.below(3));
+                }
+                cur[B0] = Felt::new(16 + rng.below(2));
+                for i in 3..6 {
+                    cur[HELPERS + i] = Felt::new(rng.below(2));
+                }
+            }
+            emit(em, &cur, &nxt, opc);
+        }
+    }
+    for (cur, nxt) in honest {
+        let mut opc = 0u8;
+        for b in 0..7 {
+            if cur[DECODER_TRACE_OFFSET + 1 + b] == Felt::ONE {
+                opc |= 1 << b;
+            }
+        }
+        emit(em, cur, nxt, opc);
+    }
+}
+
 pub fn generate(em: &mut Emitter, seed: u64, thorough: bool) {
     let mut rng = Rng::new(seed ^ 0xC04);
+    let mut honest_frames: Vec<(Vec<Felt>, Vec<Felt>)> = Vec::new();
     let mut rows_done = 0u64;
     let mut perturbations = 0u64;
     let mut per_op: std::collections::BTreeMap<u8, u64> = Default::default();
@@ -91,6 +154,9 @@ pub fn generate(em: &mut Emitter, seed: u64, thorough: bool) {
             }
             rows_done += 1;
             *per_op.entry(opc).or_default() += 1;
+            if honest_frames.len() < (if thorough { 20000 } else { 1500 }) && (rows_done % 3 == 0) {
+                honest_frames.push((ctx.rows[step].clone(), ctx.rows[step + 1].clone()));
+            }
             let depth = ctx.rows[step][B0].as_int();
             let left_shift = matches!(opc, 32..=47 | 76 | 78 | 84 | 85 | 116);
             let mut cells: Vec<(bool, usize)> = next_cells
@@ -143,6 +209,9 @@ pub fn generate(em: &mut Emitter, seed: u64, thorough: bool) {
     em.stat("perturbations", perturbations);
     em.stat("rows_per_opcode", format!("{:?}", per_op));
     directed(em);
+    air_correspondence(em, &mut rng, if thorough { 60 } else { 6 }, &honest_frames);
+    em.stat("air_model_frames_random_per_opcode", if thorough { 60 } else { 6 });
+    em.stat("air_model_frames_honest", honest_frames.len());
 }
 
 fn col_name(col: usize) -> String {
